@@ -34,6 +34,10 @@ def to_formula(t):
         return '"%s"' % t[1]
     if k == 'arr':
         return '{' + ','.join(str(n) for n in t[1]) + '}'
+    if k == 'blank':
+        return 'NULL'
+    if k == 'bool':
+        return 'TRUE' if t[1] else 'FALSE'
     if k == 'errval':
         return 'errv' + 'abcdefghi'[CODES.index(t[1])]
     if k == 'errlit':
@@ -63,6 +67,10 @@ def enc_tree(t):
         return [0] + enc_value(t[1])
     if k == 'arr':
         return [0] + enc_value(list(t[1]))
+    if k == 'blank':
+        return [0] + enc_value(None)
+    if k == 'bool':
+        return [0] + enc_value(bool(t[1]))
     if k == 'errval':
         return [0, 5, ERR_CODES.index(t[1])]
     if k == 'errlit':
@@ -135,7 +143,10 @@ def gen_err(rng, d):
 
 def gen_num(rng, d, perr):
     if d <= 0 or rng.random() < 0.25:
-        return gen_err(rng, d) if rng.random() < perr else ('int', rng.randint(-9, 9))
+        if rng.random() < perr:
+            return gen_err(rng, d)
+        r = rng.random()        # other operand types: blank and logicals act through 0 / 1 / 0 in arithmetic and comparisons
+        return ('blank',) if r < 0.08 else (('bool', r < 0.12) if r < 0.16 else ('int', rng.randint(-9, 9)))
     k = rng.randrange(11)
     if k == 10:
         # an array operand against an error operand (either side): the error is the result
@@ -159,7 +170,9 @@ def gen_num(rng, d, perr):
 
 def gen_text(rng, d, perr):
     if d <= 0 or rng.random() < 0.4:
-        return gen_err(rng, d) if rng.random() < perr else ('text', rng.choice(['a', 'b', '', 'xy']))
+        if rng.random() < perr:
+            return gen_err(rng, d)
+        return ('blank',) if rng.random() < 0.12 else ('text', rng.choice(['a', 'b', '', 'xy']))     # blank joins as nothing
     k = rng.randrange(3)
     if k == 0:
         return ('bin', 1, 0, gen_text(rng, d - 1, perr), gen_text(rng, d - 1, perr))
@@ -187,7 +200,7 @@ def gen_any(rng, d, perr):
 def plant_raiser(rng, t):
     """replace one leaf by an error literal or an unknown name (raised, not trappable)"""
     k = t[0]
-    if k in ('int', 'text', 'errval', 'raise'):
+    if k in ('int', 'text', 'errval', 'raise', 'blank', 'bool'):
         r = rng.random()
         return ('errlit', rng.choice(CODES)) if r < 0.6 else (('unkfn',) if r < 0.8 else ('unkvar',))
     if k == 'bin':
@@ -219,6 +232,10 @@ def check_operator(c):
     e, res = rec(p, f)
     out = []
     want = el if el is not None else er
+    if el is not None and er is not None and rec(p, 'ISERROR(%s)' % fl)[0] is None and rec(p, 'ISERROR(%s)' % fr)[0] is not None:
+        # the left operand IS an error value, but evaluating the right one aborts the whole formula (an error literal, an
+        # unknown name, a Python exception such as -NULL): no operation takes place, the abort is what is reported
+        want = er
     if want is not None and (e != want or res is not None):
         out.append((f, None, {'error': want, 'result': None}, {'error': e, 'result': res}))
     if el is not None:
